@@ -316,6 +316,8 @@ type walker struct {
 	analysed map[string]bool
 	top      string // name of the enclosing top-level function
 	nlit     int
+
+	lastTarget *node // set by useFunc: the node of the function value it resolved
 }
 
 type ifaceCall struct {
@@ -524,9 +526,11 @@ func (w *walker) useFunc(c ctx, e ast.Expr, kind, sem string) bool {
 			w.g.lits[[2]string{name, kind}] = true
 		}
 		w.g.parents[[2]int{target.id, c.cur.id}] = true
+		markFuncEscapes(name) // used as a value: its callers are no longer all visible
 	} else {
 		return false
 	}
+	w.lastTarget = target
 	w.applySem(c.cur.id, c.direct, target, sem)
 	return true
 }
@@ -617,7 +621,13 @@ func (w *walker) call(c ctx, call *ast.CallExpr, how string) {
 		} else {
 			desc := w.dynDesc(fun)
 			calleeName = "dyn:" + desc
-			w.addSite(c, desc, "")
+			if key, ok := w.boundParamOf(fun); ok {
+				// a call of a func-typed parameter of an unexported analysed function that does nothing with
+				// it but call it: resolved to the values the callers pass (see resolveBound), no site key
+				boundSites[key] = append(boundSites[key], bsite{c.cur.id, c.direct, desc})
+			} else {
+				w.addSite(c, desc, "")
+			}
 			w.expr(c, fun)
 		}
 	}
@@ -625,7 +635,25 @@ func (w *walker) call(c ctx, call *ast.CallExpr, how string) {
 	for ai, a := range call.Args {
 		// a wrapper that only forwards its function parameter (`func (s *T) onOwner(f func()) { s.sche.Post(f) }`)
 		// or only calls it is looked through: the literal is classified by what finally receives it
-		calleeName := resolveSink(calleeName, ai, 0)
+		calleeName, sinkIdx := resolveSinkIdx(calleeName, ai, 0)
+		if fl, ok := paramFlow[calleeName][sinkIdx]; ok && fl.kind == "bound" {
+			key := bkey{calleeName, sinkIdx}
+			ua := unparen(a)
+			if id, ok := ua.(*ast.Ident); ok && id.Name == "nil" {
+				continue
+			}
+			if _, isCall := ua.(*ast.CallExpr); !isCall {
+				w.lastTarget = nil
+				if w.useFunc(c, a, "bound", "later") && w.lastTarget != nil {
+					boundVals[key] = append(boundVals[key], w.lastTarget)
+					continue
+				}
+			}
+			// not a literal / named function / method value: the values of the parameter are unknown
+			boundUnknown[key] = true
+			w.expr(c, a)
+			continue
+		}
 		kind, sem := "arg:"+calleeName, "unknown"
 		switch {
 		case strings.HasPrefix(calleeName, "stored:"):
@@ -659,23 +687,88 @@ type flow struct {
 
 var paramFlow = map[string]map[int]flow{}
 
-func resolveSink(callee string, idx, depth int) string {
+func resolveSinkIdx(callee string, idx, depth int) (string, int) {
 	if depth > 8 {
-		return callee
+		return callee, idx
 	}
 	fl, ok := paramFlow[callee][idx]
 	if !ok {
-		return callee
+		return callee, idx
 	}
 	switch fl.kind {
 	case "fwd":
-		return resolveSink(fl.to, fl.idx, depth+1)
+		return resolveSinkIdx(fl.to, fl.idx, depth+1)
 	case "call":
-		return "calls:" + callee
+		return "calls:" + callee, idx
 	case "store":
-		return "stored:" + fl.field
+		return "stored:" + fl.field, idx
 	}
-	return callee
+	return callee, idx
+}
+
+// ---- bound parameters: a func-typed parameter of an UNEXPORTED analysed function (so every caller is analysed
+// code) whose only uses are calls `p(...)`, in the function itself or in the literals nested in it.  Such a call
+// is resolved to the function values the callers pass (0-CFA on that parameter): an edge from the node that
+// contains `p(...)` to every such value.  When the set of values is not known completely (an argument that is
+// not a literal / named function / method value, the function used as a value, spawned with `go`, or reachable
+// through an interface call) the old conservative treatment applies: a `value <type>` site and `arg:<callee>` kinds.
+type bkey struct {
+	fn  string
+	idx int
+}
+type bsite struct {
+	from   int
+	direct bool
+	desc   string
+}
+
+var boundSites = map[bkey][]bsite{}
+var boundVals = map[bkey][]*node{}
+var boundUnknown = map[bkey]bool{}
+var boundObjs = map[types.Object]bkey{} // parameter object -> (function, index), for flows of kind "bound"
+
+func markFuncEscapes(name string) {
+	for idx, fl := range paramFlow[name] {
+		if fl.kind == "bound" {
+			boundUnknown[bkey{name, idx}] = true
+		}
+	}
+}
+
+func (w *walker) boundParamOf(fun ast.Expr) (bkey, bool) {
+	id, ok := unparen(fun).(*ast.Ident)
+	if !ok {
+		return bkey{}, false
+	}
+	k, ok := boundObjs[w.info.Uses[id]]
+	return k, ok
+}
+
+func resolveBound(g *graph) {
+	keys := map[bkey]bool{}
+	for k := range boundSites {
+		keys[k] = true
+	}
+	for k := range boundVals {
+		keys[k] = true
+	}
+	for k := range keys {
+		if boundUnknown[k] {
+			for _, s := range boundSites[k] {
+				g.sites[site{s.from, s.desc, s.direct, ""}] = true
+			}
+			for _, v := range boundVals[k] {
+				g.lits[[2]string{v.name, "arg:" + k.fn}] = true
+				g.tmRoots[v.id] = true // unknown use: also a goroutine root, as for every unknown literal use
+			}
+			continue
+		}
+		for _, s := range boundSites[k] {
+			for _, v := range boundVals[k] {
+				g.calls[edge{s.from, v.id, s.direct}] = true
+			}
+		}
+	}
 }
 
 // storedField: the identifier (a func-typed parameter) is only put into a struct field here —
@@ -816,15 +909,37 @@ func summarise(info *types.Info, fd *ast.FuncDecl, name string) {
 				}
 			}
 		}
+		if f.kind == "other" && len(stack) >= 2 {
+			if call, ok := stack[len(stack)-2].(*ast.CallExpr); ok && unparen(call.Fun) == ast.Expr(id) {
+				f = flow{kind: "callnested"} // called inside a literal nested in the function
+			}
+		}
 		uses[pi] = append(uses[pi], f)
 		return true
 	})
+	unexported := !ast.IsExported(fd.Name.Name)
 	for pi, fs := range uses {
 		res := fs[0]
+		onlyCalls := unexported
+		for _, f := range fs {
+			if f.kind != "call" && f.kind != "callnested" {
+				onlyCalls = false
+			}
+		}
 		for _, f := range fs[1:] {
 			if f != res {
 				res = flow{kind: "other"}
 			}
+		}
+		if onlyCalls {
+			res = flow{kind: "bound"}
+			for obj, i := range params {
+				if i == pi {
+					boundObjs[obj] = bkey{name, pi}
+				}
+			}
+		} else if res.kind == "callnested" {
+			res = flow{kind: "other"}
 		}
 		if res.kind != "other" {
 			if paramFlow[name] == nil {
@@ -916,6 +1031,7 @@ func (w *walker) stmt(c ctx, s ast.Stmt) {
 		} else if f := w.funcObj(fun); f != nil && f.Pkg() != nil && w.analysed[f.Pkg().Path()] {
 			w.g.goRoots[[2]string{funcName(f), spawner}] = true
 			w.g.parents[[2]int{w.g.node(funcName(f)).id, c.cur.id}] = true
+			markFuncEscapes(funcName(f))
 			if sel, ok := fun.(*ast.SelectorExpr); ok {
 				w.expr(c, sel.X)
 			}
@@ -1221,6 +1337,7 @@ func main() {
 				if f, ok := obj.(*types.Func); ok && f.Pkg() != nil && anSet[f.Pkg().Path()] {
 					if n, ok := g.byName[funcName(f)]; ok {
 						g.calls[edge{ic.from, n.id, ic.direct}] = true
+						markFuncEscapes(funcName(f))
 					}
 				}
 				break
@@ -1234,6 +1351,8 @@ func main() {
 		}
 		g.calls[edge{pe.from, n.id, pe.direct}] = true
 	}
+
+	resolveBound(g)
 
 	// facts
 	g.facts["NewStandardRunService creates its event centre with useChan=true"] = factStdCentre(lds[0].files)
